@@ -378,7 +378,19 @@ func (w *Worker) Violation(sig, detail string) {
 // Probe returns a worker that is not attached to a run: violations go to onViol. Used by fuzz
 // targets, whose iterations execute in worker processes of the Go fuzzing engine.
 func Probe(onViol func(sig, detail string)) *Worker {
-	r := &Runner{Prop: "probe", onViol: onViol, viol: map[string]*ViolationRec{}, knownSigs: map[string]bool{}}
+	known := map[string]bool{}
+	for _, k := range strings.Split(os.Getenv("VERIF_KNOWN_SIGS"), "\x1f") {
+		if k != "" {
+			known[k] = true
+		}
+	}
+	inner := onViol
+	onViol = func(sig, detail string) {
+		if !known[sig] { // recorded findings (known_findings.json) are reported by the sweeps, not here
+			inner(sig, detail)
+		}
+	}
+	r := &Runner{Prop: "probe", onViol: onViol, viol: map[string]*ViolationRec{}, knownSigs: known}
 	r.sum = Summary{Counters: map[string]int64{}}
 	w := &Worker{R: r, Monitor: "probe", distinct: map[uint64]struct{}{}, counters: map[string]int64{}}
 	w.samples = make([]any, 2) // WantSample() == false
